@@ -1,6 +1,7 @@
 (* Property C20: caches and event dispatch obey their sequential spec under any schedule.
    Only statements; every proof is `exact <lemma from Proofs/EventsP.v, CacheP.v, CacheThreadP.v>`. *)
 From TenpyV Require Import Base.Prelude Model.Events Proofs.EventsP Model.Cache Proofs.CacheP.
+From TenpyV Require Import Model.CacheThread Proofs.CacheThreadP.
 Open Scope Z_scope.
 
 (* ---------------------------------------------------------------- event dispatch *)
@@ -66,6 +67,44 @@ Theorem T20_subcache_isolated : forall ops cs i c, nth_error cs i = Some c ->
   m_proj_out i ops (snd (m_run cs ops)) = snd (c_run dict_storage c (m_proj i ops)).
 Proof. exact subcache_isolated. Qed.
 
+(* ---------------------------------------------------------------- ThreadedStorage + Worker *)
+
+(* for EVERY schedule (any interleaving of caller and worker steps, any queue size), every program of
+   storage calls as DictCache issues them (load/preload/delete only of saved keys): the worker never
+   dies, and what the caller got back is exactly what a key-value store returns -- in particular
+   load k returns the value of the latest save k before it in program order (next theorem) *)
+Theorem T20_threaded_linearizable : forall qmax prog sched, wf [] prog = true ->
+  let st := lts_run qmax None sched (init prog) in
+  dead st = false /\
+  rev (t_outs st) = firstn (length (t_outs st)) (spec_outs [] prog) /\
+  (caller_finished st = true -> rev (t_outs st) = spec_outs [] prog).
+Proof. exact threaded_linearizable. Qed.
+
+Theorem T20_kv_latest_save : forall pre k v mid, forallb (fun op => negb (s_writes k op)) mid = true ->
+  last (spec_outs [] (pre ++ SSave k v :: mid ++ [SLoad k])) TOk = TVal v.
+Proof. exact spec_latest_save. Qed.
+
+(* no deadlock, for every schedule, every program (well-formed or not), with or without a task that
+   raises: a caller that has not finished can take a step after at most 3|queue|+2 worker steps
+   (so it terminates under weak fairness of the worker) *)
+Theorem T20_no_deadlock : forall qmax fail_at prog sched,
+  let st := lts_run qmax fail_at sched (init prog) in
+  caller_finished st = false ->
+  exists n, (n <= 3 * length (t_queue st) + 2)%nat /\
+            caller_step qmax (iter_worker fail_at n st) <> None.
+Proof. exact no_deadlock. Qed.
+
+(* a worker that died never blocks the caller ... *)
+Theorem T20_dead_worker_never_blocks : forall qmax fail_at prog sched,
+  let st := lts_run qmax fail_at sched (init prog) in
+  t_status st = WDead -> caller_finished st = false -> caller_step qmax st <> None.
+Proof. exact dead_worker_never_blocks. Qed.
+
+(* ... every operation that needs it raises WorkerDied at once *)
+Theorem T20_dead_worker_raises : forall qmax st op, dead st = true -> needs_worker st op = true ->
+  t_outs (start_op qmax st op) = TWorkerDied :: t_outs st /\ t_pc (start_op qmax st op) = PIdle.
+Proof. exact dead_worker_raises. Qed.
+
 (* ---------------------------------------------------------------- non-vacuity *)
 Example T20_events_example :
   snd (ev_run empty_handler [EConnect 0 None; EConnect 5 (Some 3); EConnect 0 None; EDisconnect 0; EEmit])
@@ -78,6 +117,23 @@ Example T20_cache_example :
   = [ONone; ONone; ONone; OKeyError; ONone; OVal 11; OKeys [1]].
 Proof. vm_compute. reflexivity. Qed.
 
+
+(* a well-formed program and a schedule in which the caller blocks in put (queue size 1) and in join;
+   it finishes with the key-value store's answers *)
+Example T20_lts_example :
+  let prog := [SSave 1 10; SSave 2 20; SPreload 1; SSave 1 11; SLoad 1; SLoad 2] in
+  let st := lts_run 1 None [true; true; true; false; false; true; true; false; false; true; true; false; false;
+                            false; false; true; true; true; false; false; true; true; true; true; false; false; true; true] (init prog) in
+  wf [] prog = true /\ caller_finished st = true /\ rev (t_outs st) = [TOk; TOk; TOk; TOk; TVal 11; TVal 20].
+Proof. vm_compute. repeat split. Qed.
+
+(* a failing task: the caller gets WorkerDied, nothing hangs *)
+Example T20_lts_failure_example :
+  let st := lts_run 2 (Some 1%nat) [true; true; true; false; false; false; false; false; true; true; true; true]
+                    (init [SSave 1 10; SPreload 1; SLoad 1; SSave 2 5]) in
+  t_status st = WDead /\ caller_finished st = true /\ rev (t_outs st) = [TOk; TOk; TWorkerDied; TWorkerDied].
+Proof. vm_compute. repeat split. Qed.
+
 Print Assumptions T20_events.
 Print Assumptions T20_events_emit_until.
 Print Assumptions T20_events_disconnect.
@@ -86,3 +142,8 @@ Print Assumptions T20_dictcache_refines_dict.
 Print Assumptions T20_dict_storage_ok.
 Print Assumptions T20_reads_latest_write.
 Print Assumptions T20_subcache_isolated.
+Print Assumptions T20_threaded_linearizable.
+Print Assumptions T20_kv_latest_save.
+Print Assumptions T20_no_deadlock.
+Print Assumptions T20_dead_worker_never_blocks.
+Print Assumptions T20_dead_worker_raises.
